@@ -18,7 +18,7 @@ def config(T):
         "C14": dict(pkg="c14", tests=[T("TestPinned"), T("TestAdvertised", 1800, 24000, sq=6, st=16), T("TestMethodShapes", 9000, 120000, sq=4, st=8)]),
         "C15": dict(pkg="c15", fuzz=[dict(name="FuzzPipeline", secs=90), dict(name="FuzzEnvelope", secs=45), dict(name="FuzzHTTP", secs=45)], tests=[T("TestPinned"), T("TestDocuments", 36000, 600000, sq=6, st=16), T("TestBombs", 200, 2000, sq=2, st=4),
                                       T("TestEnvelopes", 600, 20000, sq=2, st=8, race=True), T("TestHTTP", 800, 20000, sq=2, st=4),
-                                      T("TestPanicContained", 150, 3000, sq=1, st=4, race=True), T("TestCancellation", 200, 4000, sq=1, st=1), T("TestGatewayCancellation", 150, 3000, sq=1, st=1)]),
+                                      T("TestPanicContained", 150, 3000, sq=1, st=4, race=True), T("TestCancellation", 200, 4000, sq=1, st=1), T("TestGatewayCancellation", 150, 3000, sq=1, st=1), T("TestGatewaySiblingFailure", 120, 2000, sq=4, st=8)]),
         "C16": dict(pkg="c16", tests=[T("TestDirect", 12000, 120000, sq=6, st=12), T("TestSocket", 1800, 12000, sq=6, st=8, race=True)]),
         "C17": dict(pkg="c17", tests=[T("TestPinned"), T("TestStaleCloser"), T("TestLifecycle", 1920, 24000, sq=8, st=16, race=True)]),
         "C18": dict(pkg="c18", tests=[T("TestArgs", 24000, 400000, sq=6, st=16), T("TestArgsNegative", 12000, 100000, sq=4, st=8)]),
